@@ -226,6 +226,28 @@ func (c04) Build(tier string, seed uint64) []any {
 		}
 		cs = append(cs, c)
 	}
+	// (dense) full 64x64 code-blocks of high-precision noise: the largest code-block
+	// contributions (> 8 KiB per block, long pass lengths, Lblock growth)
+	nDense := 12
+	if th {
+		nDense = 120
+	}
+	for i := 0; i < nDense; i++ {
+		r := gen.Sub(seed, "C04", "dense", i)
+		c := &j2kCase{Gen: "dense"}
+		randJ2KConfig(r, c)
+		c.P = gen.Pick(r, 14, 15, 16, 16)
+		c.CBW, c.CBH = 64, 64
+		c.Levels = gen.Pick(r, 0, 0, 1, 2)
+		c.C = gen.Pick(r, 1, 1, 3)
+		c.PW, c.PH = 0, 0
+		c.Layers = gen.Pick(r, 1, 1, 2)
+		c.W, c.H = 64+r.Intn(100), 64+r.Intn(100)
+		if c.Levels > 0 {
+			c.W, c.H = 128+r.Intn(80), 128+r.Intn(80)
+		}
+		cs = append(cs, c)
+	}
 	for i := 0; i < nContent; i++ {
 		r := gen.Sub(seed, "C04", "content", i)
 		c := &j2kCase{Gen: "content"}
